@@ -82,7 +82,7 @@ def task_desc(rng: random.Random, encoding: str | None = None, *, dim: int | Non
     regime = regime or rng.choice(BOUND_REGIMES)
     minmax = minmax or rng.choice(["min", "max"])
     fam = rng.choice(FAMILIES)
-    d = {"family": fam, "minmax": minmax, "seed": rng.randrange(2 ** 31) if seed is None else seed, "nobj": 1, "weights": None,
+    d = {"family": fam, "minmax": minmax, "seed": (0 if rng.random() < 0.06 else rng.randrange(2 ** 31)) if seed is None else seed, "nobj": 1, "weights": None,
          "encoding": encoding, "regime": regime}
     lbs, ubs = bounds(rng, regime, dim)
     if encoding == "cont":
@@ -195,7 +195,7 @@ def config_dict(rng: random.Random, opt: str, *, scale: float = 1.0, max_cycles:
     if stop == "fe":
         base["fitness_error"] = rng.choice([0.5, 0.9, 2.0, 10.0])
     elif stop == "es":
-        base["early_stopping"] = {"patience": rng.choice([1, 2, 3]), "min_delta": rng.choice([1e-3, 0.1, 10.0])}
+        base["early_stopping"] = {"patience": rng.choice([1, 2, 3, 5, None]), "min_delta": rng.choice([1e-3, 0.1, 10.0, None])}
     elif stop == "both":
         base["fitness_error"] = rng.choice([0.5, 2.0])
         base["early_stopping"] = {"patience": rng.choice([1, 2]), "min_delta": rng.choice([0.1, 10.0])}
